@@ -19,9 +19,12 @@ package key
 //@       exists(c, p0 <= c && c < calls(ssh.ParseAuthorizedKey), keys[i] == ret(ssh.ParseAuthorizedKey, c, 0) && comments[i] == ret(ssh.ParseAuthorizedKey, c, 1) && keys[i] != nil))
 
 //@ # ---------------------------------------------------------------- C10: casts keep the blob
+//@ # a certificate object handed in directly (not parsed from a blob) must carry its public key
+//@ ghost func wfKey(key ssh.PublicKey) bool = typeof(key) == *ssh.Certificate ==> (pl(key) != 0 && key.(*ssh.Certificate).Key != nil)
 //@ func CastSSHPublicKeyToCertificate(key)
 //@   flag logged
-//@   requires key != nil
+//@   requires key != nil && wfKey(key)
+//@   ensures err == nil ==> result0.Key != nil
 //@   ensures err != nil ==> result0 == nil
 //@   ensures [certificates-only] err == nil ==> (result0 != nil && certBlob(blobid(key)))
 //@   ensures [same-blob] err == nil ==> certid(result0) == blobid(key)
